@@ -82,4 +82,28 @@ CHECKS = {
         "note": "Trusted: the projector (rustc-checked exhaustive destructuring of the parse tree), solang-parser; node identity by structural equality including all source locations.",
         "technique": "TLA+ spec (SolAst/Walk/Gen) + TLC tree generation and machine check + real search replay + TLC trace validation",
     },
+    "C05": {
+        "text": "TLC generates every instance of the 11 detectors' pattern families (canonical, variants, near misses) in the syntactic positions of Gen.tla inside several kinds of host function; each file is rendered, parsed, projected (round trip) and analysed by the real detectors; TV_Patterns evaluates MustLines/MayLines of Patterns.tla on the projected tree and accepts iff Must <= reported <= May; corpus programs likewise.",
+        "design_ref": "section 7 C05, section 8",
+        "note": "Verdicts are bounds (Must <= reported <= May) evaluated by TLC on the projected tree of what solang parsed; regions the statement leaves open are don't-care; detectors that panic on a file are C04's subject and left out of the record.",
+        "technique": "TLA+ spec (Patterns.tla, PatGen/DeclGen, Gen frames) + TLC-generated files + real detectors + TLC trace validation",
+    },
+    "C06": {
+        "text": "TLC generates the attribute products of function-like and state-variable declarations in every contract kind / member position and all arrangements of members crossed with neighbourhoods of other top-level items; the real detectors' verdicts are validated by TV_Patterns against the iff-characterisations of Patterns.tla (Must = May on the domain), so a verdict influenced by another item is rejected.",
+        "design_ref": "section 7 C06, section 8",
+        "note": "Verdicts are bounds (Must <= reported <= May) evaluated by TLC on the projected tree of what solang parsed; regions the statement leaves open are don't-care; detectors that panic on a file are C04's subject and left out of the record.",
+        "technique": "TLA+ spec (Patterns.tla, PatGen/DeclGen, Gen frames) + TLC-generated files + real detectors + TLC trace validation",
+    },
+    "C07": {
+        "text": "TLC generates ERC20 member names, division/multiplication chains in all positions, pragma families and selfdestruct shapes (function kind x visibility x modifiers x msg.sender usage x call position); TV_Patterns validates the four real detectors against the Must / MustNot characterisations of Patterns.tla.",
+        "design_ref": "section 7 C07, section 8",
+        "note": "Verdicts are bounds (Must <= reported <= May) evaluated by TLC on the projected tree of what solang parsed; regions the statement leaves open are don't-care; detectors that panic on a file are C04's subject and left out of the record.",
+        "technique": "TLA+ spec (Patterns.tla, PatGen/DeclGen, Gen frames) + TLC-generated files + real detectors + TLC trace validation",
+    },
+    "C08": {
+        "text": "TLC generates the 15 kinds of write to a state variable in every syntactic position of every kind of host function (and in free functions), the state-variable attribute product, the immutable matrix (assigned in constructor x written elsewhere x type x right-hand side) and the calldata matrix (function kind x storage x named x kind and place of write); TV_Patterns validates the four real detectors against Patterns.tla, restricted to files in which state-variable names are unique and not shadowed.",
+        "design_ref": "section 7 C08, section 8",
+        "note": "Verdicts are bounds (Must <= reported <= May) evaluated by TLC on the projected tree of what solang parsed; regions the statement leaves open are don't-care; detectors that panic on a file are C04's subject and left out of the record.",
+        "technique": "TLA+ spec (Patterns.tla, PatGen/DeclGen, Gen frames) + TLC-generated files + real detectors + TLC trace validation",
+    },
 }
